@@ -3,11 +3,13 @@ C17 - delimited list / key=value / INI text decodes to what was encoded.
 
 Lean: lean/N0Verif/Model/Esc.lean, Proofs/Esc.lean, Drv/Esc.lean; Model/Ini.lean, Proofs/Ini.lean, Drv/Ini.lean; Props/C17.lean
 B streams: esc.split (random + exhaustive small scope), esc.spec (the Python transcription of the
-  specification against Lean's `splitSpec`), esc.dlist, esc.kv, esc.ddict, esc.ser, esc.unesc, esc.rt;
+  specification against Lean's `splitSpec`), esc.dlist, esc.dlol (deserialize_list_of_lists), esc.dfix (deserialize_fixed_list), esc.kv, esc.ddict, esc.gvt (get_value_by_tag), esc.ddu (deserialize_dict then unescape),
+  esc.ser, esc.unesc, esc.rt, esc.rtf (round trip under generate_empty / generate_none with a default value);
   ini.value (default_parse_value), ini.isnum (isnumber, every boundary of str.isnumeric), ini.parse (parse_ini on lines
   with comments, blanks, quotes, numbers, '+=' keys), ini.rt (load_ini(save_file(m)) through a real file), ini.read (load_lines)
 C evaluators: split = one-pass specification, no-escape = plain split, totality, independence of
-  neighbours, join round trip, key=value (first tag splits), flat mapping round trip, reserved characters protected, nested mappings serialise, default value,
+  neighbours, join round trip, join_lol (list-of-lists join round trip, parse_empty on/off), fixed_list, value_by_tag, key=value (first tag splits), flat mapping round trip (also under generate_empty / generate_none off and on with default values None, '', numbers, bools: dict_roundtrip/flags, /empty-default),
+  default value (then unescape), reserved characters protected, nested mappings serialise, default value,
   INI round trip (load_ini(save_file(m)) against a reference written from the statement), ini_lines (parse_ini against the
   reference), ini_concat ('K=a','K+=b' / unseen key / blank before '+='), ini_comments (comment and blank lines change nothing)
 """
@@ -23,7 +25,7 @@ MANIFEST = dict(
     technique="Lean 4 theorems over a hand-written model (fuelled while/for/else/pop loop, with a fuel-adequacy theorem) "
               "+ differential correspondence with the implementation + the statement executed on the implementation",
     text="Lean theorems, unbounded in text length, number of items and item contents, for the code with fix patches "
-         "C17-a..g applied: C17_total (split_with_escape returns for every text, every non-empty delimiter, every maxsplit, "
+         "C17-a..i applied: C17_total (split_with_escape returns for every text, every non-empty delimiter, every maxsplit, "
          "escape character None or one character, trim on/off; the model's fuel is adequate: C17_fuel_adequate); "
          "C17_no_escape_is_split (escape character absent from the text => the result is str.split(delimiter, maxsplit), "
          "the empty delimiter's ValueError included); C17_odd_run_stays (when the delimiter does not end with the escape "
@@ -33,10 +35,19 @@ MANIFEST = dict(
          "after a closed boundary are computed independently); C17_join_roundtrip / C17_join_roundtrip_drop_empty "
          "(deserialize_list(delimiter.join(items)) returns the items for non-empty item lists whose "
          "items contain no delimiter character, with parse_empty; without it the empty items are dropped); "
+         "C17_list_of_lists_roundtrip (fix C17-i; inner items joined with the inner delimiter, the lists with the outer one, no item contains a character of either delimiter, the inner "
+         "delimiter none of the outer one, at least one list, every list at least one item: deserialize_list_of_lists with parse_empty=True returns the lists - empty items and the list [''] "
+         "included -, with the default parse_empty=False the list [''] is dropped - C17_sublist_text_empty_iff: the only list whose text is empty - and every other list loses its empty items); "
+         "C17_fixed_list (deserialize_fixed_list of joined items with parse_empty=True is the items padded with the default item / cut to n, length n); C17_list_of_lists_witness, C17_value_by_tag_examples "
+         "(get_value_by_tag: examples only; general behaviour differential, stream esc.gvt + evaluator value_by_tag); "
          "C17_dict_roundtrip (flat mapping with unique keys free of separator characters, string values over every character - "
          "inside and outside ASCII since fix C17-e - and the whole reserved alphabet; separators non-empty, containing no "
          "backslash, 'x' or lower-case hex digit, sharing no character, and no 'u'/'U' when one of their characters is above U+00FF: "
-         "unescape(deserialize_dict(serialize_dict(m))) == m); C17_nested_serialises (serialize_dict raises nothing on any "
+         "unescape(deserialize_dict(serialize_dict(m))) == m); C17_dict_roundtrip_flags (the same mappings with values '' and None, serialised with generate_empty / generate_none "
+         "on or off, deserialised with any default value and unescaped: an entry written with the equal tag comes back as its text (None as ''), an entry written as a bare key "
+         "- it must be non-empty - comes back with the unescaped default value, None included, and nothing raises: fix C17-h, before it None.copy() raised AttributeError); "
+         "C17_dict_roundtrip_empty_default (with default_value='' a mapping of texts comes back the same whatever the flags are); C17_unescape_none_kept (unescape of a mapping "
+         "fails only because one of its string values is undecodable; None values are kept); C17_default_unescape_witness; C17_nested_serialises (serialize_dict raises nothing on any "
          "tree of mappings/lists/scalars in which no list directly contains None); C17_default_value (an item without the "
          "equal tag yields (item, default_value)); C17_key_value (the first equal tag splits); C17_values_protected (the text "
          "written for a value contains no delimiter/equal-tag character, brace, bracket or quote). "
@@ -57,7 +68,8 @@ MANIFEST = dict(
     note="unescape is modelled as latin-1/backslashreplace encoding followed by CPython's unicode_escape decoder (validated by stream esc.unesc); "
          "upper()/lower() only for ASCII (otherwise unsupported); str.isnumeric() above U+007F is a table (Unicode 15.0) validated at every boundary "
          "by stream ini.isnum; floats are opaque lexemes. No open finding; fixes proposed in this round: C17-e (non-ASCII text through unescape), "
-         "C17-g ('KEY +=VALUE' with a blank before '+=').",
+         "C17-g ('KEY +=VALUE' with a blank before '+='); fourth wave: C17-h (unescape keeps None / numbers: a key that got the default value no longer makes unescape raise), C17-i (deserialize_list_of_lists hands parse_empty to the sublists). "
+         "Default values that are numbers / bools are outside the model (Option Str) and covered by the evaluators default and dict_roundtrip/flags only.",
     design_ref="5/C17",
 )
 
@@ -313,9 +325,39 @@ def rt_impl(c):
     r = core.call(lambda: un(dd(sd(c["m"], c["d"], c["eq"]), c["d"], equal_tag=c["eq"])))
     if r[0] != "ok":
         return "err " + r[1]
-    if any(any(0xD800 <= ord(ch) <= 0xDFFF for ch in v) for v in r[1].values()):
+    if any(any(0xD800 <= ord(ch) <= 0xDFFF for ch in v) for v in r[1].values() if isinstance(v, str)):
         return "unsupported"
-    return pairs(r[1], optional=False)
+    return pairs(r[1])
+
+
+def rtf_line(c):
+    return "esc.rtf %s %s %s %s %s %s" % (enc_str(c["d"]), enc_str(c["eq"]), tf(c["ge"]), tf(c["gn"]), opt(c["dv"]), enc_val(c["m"]))
+
+
+def rtf_impl(c):
+    """serialize_dict under generate_empty / generate_none, deserialize_dict with a default value, unescape"""
+    _, _, _, dd, sd, un = impl()
+    r = core.call(lambda: un(dd(sd(c["m"], c["d"], c["eq"], c["ge"], c["gn"]), c["d"], equal_tag=c["eq"], default_value=c["dv"])))
+    if r[0] != "ok":
+        return "err " + r[1]
+    if any(any(0xD800 <= ord(ch) <= 0xDFFF for ch in v) for v in r[1].values() if isinstance(v, str)):
+        return "unsupported"
+    return pairs(r[1])
+
+
+def ddu_line(c):
+    return "esc.ddu %s %s %s %s %s %s" % (enc_str(c["s"]), enc_str(c["d"]), enc_str(c["eq"]), tf(c["pe"]), opt(c["dk"]), opt(c["dv"]))
+
+
+def ddu_impl(c):
+    """unescape(deserialize_dict(...)): keys without the equal tag hold the default value (None unless given)"""
+    dd, un = impl()[3], impl()[5]
+    r = core.call(lambda: un(dd(c["s"], c["d"], parse_empty=c["pe"], equal_tag=c["eq"], default_key=c["dk"], default_value=c["dv"])))
+    if r[0] != "ok":
+        return "err " + r[1]
+    if any(any(0xD800 <= ord(ch) <= 0xDFFF for ch in v) for v in r[1].values() if isinstance(v, str)):
+        return "unsupported"
+    return pairs(r[1])
 
 
 # ---------------------------------------------------------------------------
@@ -370,14 +412,34 @@ def check_join(c):
     return None
 
 
+def writes_eq(v, ge, gn):
+    """does serialize_dict write the equal tag after the key (the statement's 'k=v'; otherwise the bare key)"""
+    if v is None:
+        return bool(gn or ge)
+    return bool(v) or bool(ge)
+
+
 def check_dict_roundtrip(c):
+    """unescape(deserialize_dict(serialize_dict(m))) == m (same keys, same order).  With the optional fields ge / gn / dv
+    (generate_empty, generate_none, default_value; values may then be None): an entry written with the equal tag comes
+    back as its text (None as ''), an entry written as a bare key comes back with the default value - whatever it is
+    (None, a number, a bool, a text) - and nothing raises (C17_dict_roundtrip_flags, fix C17-h)"""
     _, _, _, dd, sd, un = impl()
     m, d, eq = c["m"], c["d"], c["eq"]
-    r = core.call(lambda: un(dd(sd(m, d, eq), d, equal_tag=eq)))
+    if "ge" not in c:
+        r = core.call(lambda: un(dd(sd(m, d, eq), d, equal_tag=eq)))
+        if r[0] != "ok":
+            return {"raised": r[1], "text": core.call(sd, m, d, eq)[1]}
+        if r[1] != m or list(r[1]) != list(m):
+            return {"got": r[1], "want": m, "text": sd(m, d, eq)}
+        return None
+    ge, gn, dv = c["ge"], c["gn"], c["dv"]
+    want = {k: ((v or "") if writes_eq(v, ge, gn) else dv) for k, v in m.items()}
+    r = core.call(lambda: un(dd(sd(m, d, eq, ge, gn), d, equal_tag=eq, default_value=dv)))
     if r[0] != "ok":
-        return {"raised": r[1], "text": core.call(sd, m, d, eq)[1]}
-    if r[1] != m or list(r[1]) != list(m):
-        return {"got": r[1], "want": m, "text": sd(m, d, eq)}
+        return {"raised": r[1], "text": core.call(sd, m, d, eq, ge, gn)[1], "want": want}
+    if r[1] != want or list(r[1]) != list(want) or any(type(r[1][k]) is not type(want[k]) for k in want):
+        return {"got": r[1], "want": want, "text": sd(m, d, eq, ge, gn)}
     return None
 
 
@@ -419,6 +481,12 @@ def check_default(c):
     want = {c["item"]: c["dv"], "q": "1"} if c["item"] else {"q": "1"}
     if r != ("ok", want):
         return {"text": text, "got": list(r), "want": want}
+    # the two clauses of the statement compose: the mapping just deserialised goes through unescape (fix C17-h); the
+    # default value - None, a number, a bool, or a text without escapes - is still there afterwards
+    un = impl()[5]
+    u = core.call(un, r[1])
+    if u[0] != "ok" or u[1] != want or list(u[1]) != list(want) or any(type(u[1][k]) is not type(want[k]) for k in want):
+        return {"text": text, "unescape": list(u), "want": want}
     return None
 
 
@@ -428,6 +496,84 @@ def check_keyvalue(c):
     r = core.call(kv, c["k"] + c["eq"] + c["v"], equal_tag=c["eq"], default_value=c.get("dv"))
     if r != ("ok", (c["k"], c["v"])):
         return {"got": list(r), "want": [c["k"], c["v"]]}
+    return None
+
+
+# --- deserialize_list_of_lists / deserialize_fixed_list / get_value_by_tag ------
+def impl2():
+    from n0struct.n0struct_utils import deserialize_list_of_lists, deserialize_fixed_list, get_value_by_tag  # noqa
+
+    return deserialize_list_of_lists, deserialize_fixed_list, get_value_by_tag
+
+
+def dlol_line(c):
+    return "esc.dlol %s %s %s %s" % (enc_str(c["s"]), enc_str(c["d"]), enc_str(c["ds"]), tf(c["pe"]))
+
+
+def dlol_impl(c):
+    r = core.call(impl2()[0], c["s"], c["d"], delimiter_for_sublists=c["ds"], parse_empty=c["pe"])
+    if r[0] != "ok":
+        return "err " + r[1]
+    if not (isinstance(r[1], list) and all(isinstance(l, list) and all(isinstance(x, str) for x in l) for l in r[1])):
+        return "err BadShape"
+    return ("ok %d %s" % (len(r[1]), " ".join(("%d %s" % (len(l), enc_strs(l))).rstrip() for l in r[1]))).rstrip()
+
+
+def dfix_line(c):
+    return "esc.dfix %s %s %d %s %s" % (enc_str(c["s"]), enc_str(c["d"]), c["n"], opt(c["dflt"]), tf(c["pe"]))
+
+
+def dfix_impl(c):
+    r = core.call(impl2()[1], c["s"], c["n"], c["d"], default_item=c["dflt"], parse_empty=c["pe"])
+    if r[0] != "ok":
+        return "err " + r[1]
+    return ("ok %d %s" % (len(r[1]), " ".join(opt(x) for x in r[1]))).rstrip()
+
+
+def gvt_line(c):
+    return "esc.gvt %s %s %s %s %s %s" % (enc_str(c["tag"]), enc_str(c["s"]), enc_str(c["d"]), enc_str(c["eq"]), opt(c["dk"]), opt(c["dv"]))
+
+
+def gvt_impl(c):
+    r = core.call(impl2()[2], c["tag"], c["s"], c["d"], equal_tag=c["eq"], default_key=c["dk"], default_value=c["dv"])
+    if r[0] != "ok":
+        return "err " + r[1]
+    return "ok " + opt(r[1])
+
+
+def check_join_lol(c):
+    """joining the inner items with the inner delimiter and the lists with the outer one, then deserialize_list_of_lists:
+    parse_empty=True returns the lists (empty items and the list [''] included - fix C17-i); the default drops the list ['']
+    (its text is empty) and the empty items of every other list (C17_list_of_lists_roundtrip)"""
+    text = c["d"].join(c["ds"].join(l) for l in c["lists"])
+    want = [list(l) for l in c["lists"]] if c["pe"] else [[it for it in l if it] for l in c["lists"] if l != [""]]
+    r = core.call(impl2()[0], text, c["d"], delimiter_for_sublists=c["ds"], parse_empty=c["pe"])
+    if r[0] != "ok":
+        return {"text": text, "raised": r[1], "want": want}
+    if r[1] != want:
+        return {"text": text, "got": r[1], "want": want}
+    return None
+
+
+def check_fixed_list(c):
+    """deserialize_fixed_list(join(items), n, parse_empty=True) is the items padded with the default item / cut to n"""
+    text = c["d"].join(c["items"])
+    want = (list(c["items"]) + [c["dflt"]] * c["n"])[: c["n"]]
+    r = core.call(impl2()[1], text, c["n"], c["d"], default_item=c["dflt"], parse_empty=True)
+    if r[0] != "ok" or r[1] != want or len(r[1]) != c["n"]:
+        return {"text": text, "got": list(r), "want": want}
+    return None
+
+
+def check_value_by_tag(c):
+    """get_value_by_tag(k, 'k=v;...') is the value of k, or the default value when k is missing / bare / has the empty value"""
+    m, d, eq, dv = c["m"], c["d"], c["eq"], c["dv"]
+    text = d.join(k if v is None else k + eq + v for k, v in m.items())
+    for tag in list(m) + [c["missing"]]:
+        want = m.get(tag) or dv
+        r = core.call(impl2()[2], tag, text, d, equal_tag=eq, default_value=dv)
+        if r != ("ok", want):
+            return {"text": text, "tag": tag, "got": list(r), "want": want}
     return None
 
 
@@ -796,6 +942,7 @@ EVALS = {
     "spec": check_spec, "plain": check_plain, "total": None, "independent": check_independent, "join": check_join,
     "dict_roundtrip": check_dict_roundtrip, "nested": check_nested, "default": check_default, "ini": check_ini,
     "keyvalue": check_keyvalue, "protected": check_protected,
+    "join_lol": check_join_lol, "fixed_list": check_fixed_list, "value_by_tag": check_value_by_tag,
     "ini_concat": check_ini_concat, "ini_comments": check_ini_comments, "ini_lines": check_ini_lines,
 }
 
@@ -839,6 +986,11 @@ def _dict_valid(c):
         return False
     if not safe_seps(d, eq):
         return False
+    if "ge" in c:
+        dv = c.get("dv")
+        if not (isinstance(c["ge"], bool) and isinstance(c.get("gn"), bool) and (dv is None or isinstance(dv, (int, float)) or (isinstance(dv, str) and "\\" not in dv))):
+            return False
+        return all((v is None or isinstance(v, str)) and all(ch not in d and ch not in eq for ch in k) and (k or writes_eq(v, c["ge"], c["gn"])) for k, v in m.items())
     return all(isinstance(v, str) and all(ch not in d and ch not in eq for ch in k) for k, v in m.items())
 
 
@@ -860,6 +1012,13 @@ VALID = {
     "default": lambda c: c.get("eq") and c.get("d") and c["eq"] not in c["item"] and all(ch not in c["item"] for ch in c["d"]) and not (set(c["d"]) & set("q1" + c["eq"])),
     "ini": lambda c: isinstance(c.get("m"), dict) and c.get("eol") in ("\n", "\r\n") and ini_in_statement(c["m"]),
     "protected": lambda c: _dict_valid(c),
+    "join_lol": lambda c: c.get("d") and c.get("ds") and isinstance(c.get("pe"), bool) and not (set(c["d"]) & set(c["ds"])) and c.get("lists")
+    and all(isinstance(l, list) and l and all(isinstance(it, str) and not (set(it) & set(c["d"] + c["ds"])) for it in l) for l in c["lists"]),
+    "fixed_list": lambda c: c.get("d") and c.get("items") and isinstance(c.get("n"), int) and c["n"] >= 0 and (c.get("dflt") is None or isinstance(c["dflt"], str))
+    and all(isinstance(it, str) and not (set(it) & set(c["d"])) for it in c["items"]),
+    "value_by_tag": lambda c: c.get("d") and c.get("eq") and isinstance(c.get("m"), dict) and isinstance(c.get("missing"), str) and c["missing"] not in c["m"] and c["missing"] != ""
+    and not (set(c["missing"]) & set(c["d"] + c["eq"])) and (c.get("dv") is None or isinstance(c["dv"], str))
+    and all(k and not (set(k) & set(c["d"] + c["eq"])) and (v is None or (isinstance(v, str) and not (set(v) & set(c["d"])))) for k, v in c["m"].items()),
     "keyvalue": lambda c: c.get("eq") and isinstance(c.get("k"), str) and isinstance(c.get("v"), str) and all(ch not in c["eq"] for ch in c["k"]),
     "ini_concat": lambda c: c.get("eq") in INI_EQS and ini_key_in_statement(c.get("k", ""), c["eq"]) and not c["k"].endswith("+")
     and all(isinstance(c.get(x), str) and "\n" not in c[x] and "\r" not in c[x] for x in ("a", "b")),
@@ -897,7 +1056,8 @@ def replay(rp):
 
 IMPLS = {"ini.value": ini_value_impl, "ini.isnum": ini_isnum_impl, "ini.parse": ini_parse_impl, "ini.rt": ini_rt_impl, "ini.read": ini_read_impl,
          "esc.split": split_impl, "esc.spec": spec_py, "esc.dlist": dlist_impl, "esc.kv": kv_impl, "esc.ddict": ddict_impl,
-         "esc.ser": ser_impl, "esc.unesc": unesc_impl, "esc.rt": rt_impl}
+         "esc.ser": ser_impl, "esc.unesc": unesc_impl, "esc.rt": rt_impl, "esc.rtf": rtf_impl, "esc.ddu": ddu_impl,
+         "esc.dlol": dlol_impl, "esc.dfix": dfix_impl, "esc.gvt": gvt_impl}
 
 
 def witness_fails(finding):
@@ -979,6 +1139,35 @@ def run(ctx):
         items = [gen_item(rng, d, e, clean_of=[d] + ([e] if e else [])) for _ in range(rng.choice([1, 1, 2, 3, 4, 6]))]
         jn.append({"items": items, "d": d, "pe": rng.random() < 0.6, "e": e})
     ctx.evaluate("join", jn, check_join, nontrivial=lambda c: len(c["items"]) > 1)
+    # ---- B + C: deserialize_list_of_lists, deserialize_fixed_list (compositions of deserialize_list)
+    rng = ctx.rng("lol")
+    lol, fx = [], []
+    for _ in range(n // 2):
+        d, ds = rng.choice([";", ";", "|", "::", "\n"]), rng.choice([",", ",", ":", "=>", ";"])
+        if rng.random() < 0.04:
+            d = ""
+        if rng.random() < 0.04:
+            ds = ""
+        al = ["a", "b", " ", d or ";", d or ";", ds or ",", ds or ",", ds or ",", "\\", "="]
+        text = "".join(rng.choice(al) for _ in range(rng.choice([0, 1, 2, 3, 5, 8, 12])))
+        lol.append({"s": text, "d": d, "ds": ds, "pe": rng.random() < 0.5})
+        fx.append({"s": text, "d": d, "n": rng.choice([0, 1, 2, 3, 5, 9]), "dflt": rng.choice([None, None, "", "DEF"]), "pe": rng.random() < 0.5})
+    lol += [{"s": "a,,b;c", "d": ";", "ds": ",", "pe": True}, {"s": "a,,b;;c", "d": ";", "ds": ",", "pe": True}, {"s": "", "d": ";", "ds": "", "pe": False}, {"s": "", "d": ";", "ds": "", "pe": True}]
+    ctx.correspond("esc.dlol", lol, dlol_line, dlol_impl, nontrivial=lambda c: c["d"] != "" and c["ds"] != "" and c["d"] in c["s"] and c["ds"] in c["s"])
+    ctx.correspond("esc.dfix", fx, dfix_line, dfix_impl, nontrivial=lambda c: c["d"] != "" and c["d"] in c["s"])
+    jl, fl = [], []
+    for _ in range(n // 2):
+        d, ds = rng.choice([(";", ","), (";", ","), ("|", ":"), ("::", "=>"), ("\n", ";"), (",", ";")])
+        al = [ch for ch in ["a", "b", "x", " ", "=", "\\", "{", "!", ";", ",", ":"] if ch not in d and ch not in ds]
+        def item():
+            return "".join(rng.choice(al) for _ in range(rng.choice([0, 0, 1, 2, 3])))
+        lists = [[item() for _ in range(rng.choice([1, 1, 2, 3, 4]))] for _ in range(rng.choice([1, 2, 2, 3, 4]))]
+        jl.append({"lists": lists, "d": d, "ds": ds, "pe": rng.random() < 0.6})
+        fl.append({"items": [item() for _ in range(rng.choice([1, 2, 3, 5]))], "d": d, "n": rng.choice([0, 1, 2, 3, 5, 8]), "dflt": rng.choice([None, "", "DEF"])})
+    jl += [{"lists": [["a", "", "b"], ["c"]], "d": ";", "ds": ",", "pe": True}, {"lists": [["a", "", "b"], [""], ["c"]], "d": ";", "ds": ",", "pe": True},
+           {"lists": [["a", "", "b"], [""], ["", ""], ["c"]], "d": ";", "ds": ",", "pe": False}]
+    ctx.evaluate("join_lol", jl, check_join_lol, nontrivial=lambda c: any("" in l for l in c["lists"]) and len(c["lists"]) > 1)
+    ctx.evaluate("fixed_list", fl, check_fixed_list, nontrivial=lambda c: 0 < c["n"] != len(c["items"]))
     # ---- B4: key=value and dict deserialisers
     rng = ctx.rng("kv")
     kvs, dds = [], []
@@ -995,12 +1184,29 @@ def run(ctx):
         dds.append({"s": d.join(items), "d": d if rng.random() < 0.95 else "", "eq": eq, "pe": rng.random() < 0.4, "dk": dk, "dv": dv})
     ctx.correspond("esc.kv", kvs, kv_line, kv_impl)
     ctx.correspond("esc.ddict", dds, ddict_line, ddict_impl)
+    gv = []
+    for c in dds:
+        keys = [it.split(c["eq"], 1)[0] for it in c["s"].split(c["d"])] if c["eq"] and c["d"] else ["a"]
+        gv.append(dict(c, tag=rng.choice(keys + ["a", "zz", ""])))
+        gv[-1].pop("pe")
+    ctx.correspond("esc.gvt", gv, gvt_line, gvt_impl, nontrivial=lambda c: c["eq"] != "" and c["d"] != "" and c["tag"] in c["s"])
+    vt = []
+    for _ in range(n // 4):
+        d, eq = rng.choice([";", ",", "|"]), rng.choice(["=", ":", "=>"])
+        m = {}
+        for _ in range(rng.choice([0, 1, 2, 3, 4])):
+            k = "".join(rng.choice(["a", "k", " ", "x", "_"]) for _ in range(rng.choice([1, 1, 2, 3])))
+            m[k] = rng.choice([None, "", "v", "0", " ", "a" + eq + "b", "\\x3b"])
+        vt.append({"m": m, "d": d, "eq": eq, "dv": rng.choice([None, None, "", "DV"]), "missing": "zz"})
+    ctx.evaluate("value_by_tag", vt, check_value_by_tag, nontrivial=lambda c: len(c["m"]) > 1)
+    ctx.correspond("esc.ddu", dds + [{"s": "a;b=1", "d": ";", "eq": "=", "pe": False, "dk": None, "dv": None}], ddu_line, ddu_impl,
+                   nontrivial=lambda c: c["eq"] != "" and any(c["eq"] not in it for it in c["s"].split(c["d"] or ";")))
     dfl = []
     for _ in range(n // 4):
         eq = rng.choice(["=", ":", "=>"])
         d = rng.choice([";", ",", "|"])
         item = "".join(rng.choice(["a", "k", " ", "\\", "x"]) for _ in range(rng.choice([0, 1, 2, 4])))
-        dfl.append({"item": item, "eq": eq, "d": d, "dv": rng.choice([None, "", "DV", "0"])})
+        dfl.append({"item": item, "eq": eq, "d": d, "dv": rng.choice([None, None, "", "DV", "0", 5, 0, False, 1.5])})
     ctx.evaluate("default", dfl, check_default)
     kvc = []
     for _ in range(n // 4):
@@ -1056,6 +1262,31 @@ def run(ctx):
         for ch in list(d) + list(eq) + ["\u00e9", "\u20ac", "\U0001f600", "\\", "\u00ff", "\u0100"]:
             dr.append({"m": {"k": ch, "j": "a" + ch + ch + "\\" + ch}, "d": d, "eq": eq})
     ctx.correspond("esc.rt/wide", [c for c in dr if non_ascii_case([c["d"], c["eq"]])], rt_line, rt_impl)
+    # flags: generate_empty / generate_none on and off, values '' and None, a default value (B: None or a text; C: also numbers / bools)
+    rng = ctx.rng("rtf")
+    rtf, drf = [], []
+    for c in rts[: max(200, len(rts) // 2)]:
+        m = dict(c["m"])
+        for k in list(m):
+            x = rng.random()
+            if x < 0.25:
+                m[k] = ""
+            elif x < 0.45:
+                m[k] = None
+        ge, gn = rng.random() < 0.5, rng.random() < 0.5
+        rtf.append({"m": m, "d": c["d"], "eq": c["eq"], "ge": ge, "gn": gn, "dv": rng.choice([None, None, "", "DV", "\\x41"])})
+        drf.append({"m": m, "d": c["d"], "eq": c["eq"], "ge": ge, "gn": gn, "dv": rng.choice([None, None, "", "DV", 5, 0, False, 1.5])})
+    for ge in (False, True):
+        for gn in (False, True):
+            for dv in (None, "", 5):
+                drf.append({"m": {"a": "", "b": "x", "n": None}, "d": ";", "eq": "=", "ge": ge, "gn": gn, "dv": dv})
+    rtf.append({"m": {"a": "", "b": "x"}, "d": ";", "eq": "=", "ge": False, "gn": True, "dv": None})
+    ctx.correspond("esc.rtf", rtf, rtf_line, rtf_impl, nontrivial=lambda c: any(not writes_eq(v, c["ge"], c["gn"]) for v in c["m"].values()))
+    drf = [c for c in drf if _dict_valid(c)]
+    ctx.evaluate("dict_roundtrip/flags", drf, check_dict_roundtrip, nontrivial=lambda c: any(not writes_eq(v, c["ge"], c["gn"]) for v in c["m"].values()))
+    # with default_value='' a mapping of texts comes back the same whatever the flags are (C17_dict_roundtrip_empty_default)
+    same = [dict(c, dv="") for c in drf if all(isinstance(v, str) for v in c["m"].values())]
+    ctx.evaluate("dict_roundtrip/empty-default", same, check_dict_roundtrip, nontrivial=lambda c: any(v == "" for v in c["m"].values()) and not c["ge"])
     ctx.evaluate("dict_roundtrip", dr, check_dict_roundtrip, nontrivial=lambda c: len(c["m"]) > 0)
     ctx.evaluate("protected", dr, check_protected, nontrivial=lambda c: len(c["m"]) > 0)
     # ---- C: nested mappings serialise
